@@ -77,7 +77,12 @@ def generate(prop, rng, index, tier):
             # not-a-number and infinite cells are ordinary floating-point values for a grid (kept as text in the scenario)
             for _ in range(rng.choice([1, 1, 2])):
                 vals[rng.randrange(ncell)] = rng.choice(["nan", "nan", "inf", "-inf"])
-        grids.append({"name": "g%d" % g, "dtype": "i8" if is_int else "f8", "kind": kind, "values": vals,
+        gdt = "i8" if is_int else "f8"
+        if is_int and all(v >= 0 for v in vals) and rng.random() < 0.5:
+            gdt = "u8"          # what a read with DataType = Positive Integer produces
+            if rng.random() < 0.3:
+                vals[rng.randrange(ncell)] = rng.choice([2 ** 63 + 5, 2 ** 64 - 1])
+        grids.append({"name": "g%d" % g, "dtype": gdt, "kind": kind, "values": vals,
                       "mask": mask, "maskkind": mk})
     reads = []
     for _ in range(rng.randint(1, 4)):
@@ -196,7 +201,7 @@ def execute(sc):
             try:
                 arrays = {}
                 for g in sc["grids"]:
-                    data = numpy.array(g["values"], dtype=("int64" if g["dtype"] == "i8" else "float64")).reshape(shape)
+                    data = numpy.array(g["values"], dtype={"i8": "int64", "u8": "uint64"}.get(g["dtype"], "float64")).reshape(shape)
                     if g["maskkind"] == "nomask":
                         arr = numpy.ma.array(data)
                     else:
@@ -250,9 +255,9 @@ def execute(sc):
                             return _finish(sc, res)
                         g0 = next(x for x in sc["grids"] if x["name"] == nm)
                         kind = ds.variables[nm].dtype.kind
-                        if (g0["dtype"] == "i8") != (kind in "iu"):
+                        if (g0["dtype"] in ("i8", "u8")) != (kind in "iu"):
                             res.violate("C18.write", "C18.write element-kind-changed",
-                                        "%s result %s was stored as %s" % ("integer" if g0["dtype"] == "i8" else "float", nm,
+                                        "%s result %s was stored as %s" % ("integer" if g0["dtype"] in ("i8", "u8") else "float", nm,
                                                                            ds.variables[nm].dtype))
                             return _finish(sc, res)
                 res.probe("template dimension variables copied unchanged")
@@ -435,6 +440,9 @@ def _judge(res, g, rd, got, err, union, shape, numpy, MPilotError, tag=""):
     if kind != want_kind and not (want_kind == "u" and kind == "u"):
         res.violate("C18.read", "C18.read element-kind %s" % (dt or "default"),
                     "DataType %s returned element type %s" % (dt or "(omitted: float by default)", data.dtype))
+        return
+    if want_kind == "i" and any(isinstance(v, int) and not -2 ** 63 <= v < 2 ** 63 for v in vals):
+        res.observe("unsigned values beyond the signed 64-bit range read as Integer: not representable, not judged")
         return
     mask = numpy.ma.getmaskarray(got).ravel().tolist()
     flat = data.ravel().tolist()
